@@ -17,7 +17,7 @@ EXPLANATION = (
     "S5 the cutoff comparison is invariant under (mode, metric) -> (other mode, -metric); S6 a promoted trial is told to run "
     "exactly to the next rung level (max_resource_attr := milestone) and the running record keeps resume_from < milestone; "
     "S7 promotion out of a rung requires its level to be below the effective maximum; PASHA's cap only grows; S8 a new "
-    "configuration is requested exactly when no trial is promotable. NOT decided: quantile and cost-threshold values; "
+    "configuration is requested exactly when no trial is promotable. S2 also: the cost-aware scan takes an entry only while the running cost is within the threshold, if it is promotable, and if the rung has more than one entry. NOT decided: quantile and cost-threshold values; "
     "PASHA's ranking-stability criterion.")
 
 FLOOR = {"S1": 3, "S2": 5, "S3": 3, "S4": 3, "S5": 1, "S6": 4, "S7": 4, "S8": 2}
